@@ -28,7 +28,7 @@ RULE = ('cases: (a) plain mode = secret class (1, n-1, leading zero bytes, high 
         'address, lot, sequence; wif/address/public key of the Key object), different '
         'passphrase; (c) one freshness history per run, in one process: >= 48 full default-argument flows (new intermediate code + '
         'new key) followed by >= 96 new keys on one intermediate code (thorough: 400 + 3000), compared pairwise over the whole '
-        'history (owner salts, codes, seeds, keys, addresses, encrypted keys, confirmation codes, shared 8-byte windows). non-trivial = distinct (mode, API, secret/salt class, compressed, network, '
+        'history (owner salts, codes, seeds, keys, addresses, encrypted keys, confirmation codes, shared 8-byte windows), then a hostile schedule: the global `random` state is re-seeded / restored before each of >= 24 new-key and 2 intermediate-code requests (results pairwise distinct; os.urandom bytes drawn and PRNG advance observed); (d) passphrases that look like hexadecimal (str and utf-8 bytes) in both modes, with wrong-passphrase probes differing only in letter case / blanks. non-trivial = distinct (mode, API, secret/salt class, compressed, network, '
         'passphrase class, lot class) tuples; a history counts once per (function, length)')
 TRUSTED_BASE = ['vf/refs/bip38.py (self-checked: all BIP38 test vectors incl. unicode passphrase, EC-multiplied with and without '
                 'lot/sequence, confirmation codes, RFC 7914 scrypt and FIPS-197 AES vectors, repo tests/bip38_protected_key_tests.json)',
@@ -80,8 +80,28 @@ def _fn(network):
     return ref.p2pkh_fn(bytes.fromhex(chain.NETWORKS[network]['p2pkh']))
 
 
+HEXLIKE = ['123456', 'c0ffee', 'DEAD BEEF', 'deadbeef', 'AbCd 0123 4567 89eF', '00', 'cafe babe']     # bytes.fromhex() accepts these
+
+
+def _wrong_hexlike(pw, rnd):
+    """Passphrases that differ from a hex-looking one only in letter case or blanks (all of them un-hexlify alike)."""
+    c = [pw.swapcase(), pw.upper(), pw.lower(), pw.replace(' ', ''), pw[:2] + ' ' + pw[2:], pw + ' ', ' ' + pw]
+    c = [x for x in c if x != pw]
+    return rnd.choice(c)
+
+
+def _pwarg(pw):
+    """The passphrase as handed to the library: str, or its utf-8 bytes when the case says so."""
+    return pw.encode('utf-8') if (_PW_BYTES[0] and isinstance(pw, str)) else pw
+
+
+_PW_BYTES = [False]
+
+
 def _wrong(pw, rnd):
     """A passphrase that is different after NFC normalisation."""
+    if pw in HEXLIKE:
+        return _wrong_hexlike(pw, rnd)
     cands = [pw + ' ', pw[:-1] if len(pw) > 1 else pw + 'x', pw.swapcase() if pw.swapcase() != pw else pw + 'A',
              'x' + pw, pw[::-1] if pw[::-1] != pw else pw + '1']
     cands = [c for c in cands if unicodedata.normalize('NFC', c) != unicodedata.normalize('NFC', pw) and c]
@@ -116,6 +136,7 @@ APIS = ['Key', 'Key', 'Key', 'HDKey-legacy', 'func', 'HDKey-default']
 # ------------------------------------------------------------------------------------------------ library calls
 def _lib_encrypt(api, secret, compressed, network, pw):
     from bitcoinlib.keys import Key, HDKey, bip38_encrypt
+    pw = _pwarg(pw)
     if api == 'HDKey-legacy':
         return HDKey(secret, network=network, compressed=compressed, witness_type='legacy').encrypt(pw)
     if api == 'HDKey-default':
@@ -129,6 +150,7 @@ def _lib_encrypt(api, secret, compressed, network, pw):
 def _lib_decrypt(api, enc, network, pw):
     """-> (secret bytes, compressed). Raises when the library refuses."""
     from bitcoinlib.keys import Key, HDKey, bip38_decrypt
+    pw = _pwarg(pw)
     if api == 'HDKey-legacy':
         k = HDKey(enc, password=pw, network=network, witness_type='legacy')
     elif api == 'HDKey-default':
@@ -208,8 +230,11 @@ def _func_verifies(r, network, expect_secret=None):
 def chk_noec(case, col, rnd):
     api, network, compressed = case['api'], case['network'], case['compressed']
     secret, pw, pcls = bytes.fromhex(case['secret']), case['pass'], case['pcls']
-    col.case('noec/%s/%s/%s' % (api, network, pcls),
-             nontrivial=('noec', api, case.get('scls'), compressed, network, pcls), sample=case)
+    _PW_BYTES[0] = bool(case.get('pass_bytes'))
+    if pcls == 'hexlike':
+        col.probe('hexlike_passphrase')
+    col.case('noec/%s/%s/%s' % (api, network, pcls + ('-bytes' if _PW_BYTES[0] else '')),
+             nontrivial=('noec', api, case.get('scls'), compressed, network, pcls, _PW_BYTES[0]), sample=case)
     fn = _fn(network)
     exp = ref.encrypt(secret, compressed, pw, address_fn=fn)
     sensitive = not _is_nfc(pw)
@@ -333,8 +358,11 @@ def chk_ec(case, col, rnd):
     lot, seq = case.get('lot'), case.get('seq')
     api = case.get('api', 'Key')
     lotcls = case.get('lotcls', 'none')
-    col.case('ec/%s/%s/%s/%s' % (api, network, pcls, lotcls),
-             nontrivial=('ec', api, len(salt), lotcls, compressed, network, pcls), sample=case)
+    _PW_BYTES[0] = bool(case.get('pass_bytes'))
+    if pcls == 'hexlike':
+        col.probe('hexlike_passphrase')
+    col.case('ec/%s/%s/%s/%s' % (api, network, pcls + ('-bytes' if _PW_BYTES[0] else ''), lotcls),
+             nontrivial=('ec', api, len(salt), lotcls, compressed, network, pcls, _PW_BYTES[0]), sample=case)
     fn = _fn(network)
     g = ref.ec_plan(pw, salt, lot, seq, seedb, compressed, fn)
 
@@ -490,6 +518,53 @@ def chk_fresh(case, col):
         sw = _shared_window(draws)
         if sw and not (_first_repeat(salts) or _first_repeat([x[2] for x in res])):
             col.violation(None, 'random material reused within one process: %s shares 8 bytes with %s' % (sw[0], sw[1]), case, sw[2].hex(), 'disjoint draws')
+    # -- hostile schedule: the state of Python's global PRNG recurs between requests (re-seeded / restored before every
+    #    call, as in forked workers or an application that seeds `random`); fresh keys must not depend on it. Entropy
+    #    provenance is observed as well: bytes fetched from os.urandom during the call, and whether the call advanced
+    #    the global PRNG.
+    n_host, n_host_int = int(case.get('n_hostile', 0)), int(case.get('n_hostile_intermediate', 0))
+    if n_host or n_host_int:
+        import os as _os
+        import random as _random
+        saved, real_urandom = _random.getstate(), _os.urandom
+        drawn = [0]
+
+        def counting_urandom(n):
+            drawn[0] += n
+            return real_urandom(n)
+        _random.seed(0xC15)
+        recurring = _random.getstate()
+        hres, hsalts, prov = [], [], []
+        try:
+            _os.urandom = counting_urandom
+            for i in range(n_host + n_host_int):
+                if i % 2:
+                    _random.setstate(recurring)
+                else:
+                    _random.seed(0xC15)
+                before, drawn[0] = _random.getstate(), 0
+                col.probe('fresh_hostile_prng')
+                try:
+                    if i < n_host:
+                        r = keys.bip38_create_new_encrypted_wif(batch_code, compressed=bool(i % 3))
+                        hres.append((bytes(r['seed']), r['encrypted_wif'], r['address']))
+                    else:
+                        hsalts.append(ref.parse_intermediate(keys.bip38_intermediate_password(pw))['ownerentropy'])
+                except Exception as e:
+                    col.violation(None, 'generation call under a re-seeded global PRNG raised %r' % (e,), case, repr(e), None)
+                    continue
+                prov.append((i, drawn[0], _random.getstate() != before))
+        finally:
+            _os.urandom = real_urandom
+            _random.setstate(saved)
+        for what, vals in (('bip38_create_new_encrypted_wif (default seed)', hres), ('bip38_intermediate_password (default salt)', hsalts)):
+            if len(vals) >= 2 and len(set(vals)) != len(vals):
+                col.violation(None, '%s: %d requests, each made with the same state of the global `random` module, gave only %d distinct results' % (
+                    what, len(vals), len(set(vals))), case, [v[0].hex() if isinstance(v, tuple) else v.hex() for v in vals[:4]], 'pairwise distinct')
+        noos = [p for p in prov if p[1] == 0 and p[2]]
+        if noos:
+            col.violation(None, '%d of %d generation calls fetched no bytes from os.urandom and advanced the global PRNG instead '
+                          '(randomness of new keys taken from the `random` module)' % (len(noos), len(prov)), case, noos[:3], 'OS entropy')
     # -- the last generated key belongs to the passphrase (one scrypt; ties the history to real keys)
     if res and case.get('decrypt_one', True):
         col.probe('fresh_generated_key_decrypts')
@@ -557,7 +632,9 @@ def plan(tier, seed, scale=1.0):
     # ~0.4 s per full flow (one scrypt 16384/8/8), ~5 ms per new key on an existing intermediate code.
     specs.append({'shard': nshard, 'nshard': nshard, 'n_noec': 0, 'n_ec': 0, 'full_selfcheck': 'minimal',
                   'fresh': {'n_flows': max(48, int((400 if thorough else 48) * scale)),
-                            'n_batch': max(96, int((3000 if thorough else 160) * scale))}})
+                            'n_batch': max(96, int((3000 if thorough else 160) * scale)),
+                            'n_hostile': max(24, int((400 if thorough else 24) * scale)),
+                            'n_hostile_intermediate': 6 if thorough else 2}})
     return specs
 
 
@@ -569,7 +646,11 @@ def gen_noec(rnd, g):
     compressed = True if api == 'HDKey-default' else bool((g + g // 7) % 2)
     if api == 'HDKey-default' and not _is_nfc(pw):      # one named feature per case: keep the passphrase feature out
         pcls, pw = _NFC_INVARIANT[g % len(_NFC_INVARIANT)]
-    return {'kind': 'noec', 'api': api, 'network': nets[(g * 3 + g // len(nets)) % len(nets)] if g % 4 else 'bitcoin',
+    pass_bytes = False
+    if g % 4 == 1:          # every run of 4 consecutive cases has a passphrase that looks like hexadecimal
+        pcls, pw = 'hexlike', HEXLIKE[(g // 4) % len(HEXLIKE)]
+        pass_bytes = api in ('Key', 'func') and (g // 4) % 2 == 1
+    return {'kind': 'noec', 'pass_bytes': pass_bytes, 'api': api, 'network': nets[(g * 3 + g // len(nets)) % len(nets)] if g % 4 else 'bitcoin',
             'compressed': compressed, 'secret': _secret(rnd, scls).hex(), 'scls': scls, 'pass': pw, 'pcls': pcls}
 
 
@@ -591,7 +672,11 @@ def gen_ec(rnd, g):
     network = 'bitcoin' if g % 3 != 2 else nets[(g // 3) % len(nets)]
     if chain.NETWORKS[network]['p2pkh'] != chain.NETWORKS['bitcoin']['p2pkh'] and not _is_nfc(pw):
         pcls, pw = _NFC_INVARIANT[g % len(_NFC_INVARIANT)]      # one named feature per case
-    return {'kind': 'ec', 'api': api, 'network': network, 'compressed': bool((g // 2) % 2), 'pass': pw, 'pcls': pcls,
+    pass_bytes = False
+    if g % 4 == 2:          # (no lot/sequence: the library's own intermediate code is judged too)
+        pcls, pw = 'hexlike', HEXLIKE[(g // 4 + 3) % len(HEXLIKE)]
+        pass_bytes = api in ('Key', 'func') and (g // 4) % 2 == 0
+    return {'kind': 'ec', 'pass_bytes': pass_bytes, 'api': api, 'network': network, 'compressed': bool((g // 2) % 2), 'pass': pw, 'pcls': pcls,
             'salt': salt.hex(), 'seedb': rnd.randbytes(24).hex(), 'lot': lot, 'seq': seq, 'lotcls': lotcls,
             'salt_form': rnd.choice(['bytes', 'hex']), 'seed_form': rnd.choice(['bytes', 'hex'])}
 
@@ -600,12 +685,13 @@ def run_shard(spec, col):
     if not _selfcheck(col, full=spec.get('full_selfcheck', False)):
         return
     for p in ('noec_encrypt', 'noec_decrypt', 'noec_wrong_passphrase', 'ec_intermediate', 'ec_generate', 'ec_decrypt',
-              'ec_wrong_passphrase', 'func_result_fields', 'key_object_views'):
+              'ec_wrong_passphrase', 'func_result_fields', 'key_object_views', 'hexlike_passphrase'):
         col.require(p)
     # the freshness history must be long: >= 48 owner salts and >= 144 seeds compared pairwise within one process
     col.require('fresh_salt_history', 48)
     col.require('fresh_seed_history', 144)
     col.require('fresh_material_windows', 192)
+    col.require('fresh_hostile_prng', 26)
     rnd = random.Random('%s-%d-%d' % (ID, spec['seed'], spec['shard']))
     sh, ns = spec['shard'], spec['nshard']
     off = spec['seed'] * 7919
